@@ -11,14 +11,19 @@ use serde_json::{json, Value};
 
 type Issues = Vec<(String, String)>;
 
+/// frame counts of LONG + n mean: n frames 15 000 s apart (three of them make a track of more
+/// than 2^31 and less than 2^32 ticks - header layouts that depend on the track length)
+const LONG: usize = 100;
+
 fn frames_for(cfg: &Cfg, n: usize) -> Vec<Op> {
     let mut ops = vec![];
+    let (n, spacing) = if n >= LONG { (n - LONG, 15_000.0) } else { (n, 1.0 / 30.0) };
     for i in 0..n {
         let (d, _) = video_frame(cfg.codec, i == 0, i == 0, i as u32 + 1, 5 + i);
-        ops.push(Op::WV { pts: T(i as f64 / 30.0), data: Bytes::new(d), key: i == 0 });
+        ops.push(Op::WV { pts: T(i as f64 * spacing), data: Bytes::new(d), key: i == 0 });
         if let Some(a) = &cfg.audio {
             let (d, _) = audio_frame(a.codec, i as u32, 6);
-            ops.push(Op::WA { pts: T(i as f64 / 30.0), data: Bytes::new(d) });
+            ops.push(Op::WA { pts: T(i as f64 * spacing), data: Bytes::new(d) });
         }
     }
     ops
@@ -268,6 +273,17 @@ pub fn check(ctx: &Ctx) -> i32 {
             let times = [None, Some(0u64), Some(951_782_400), Some(4_102_444_799)];
             let langs: Vec<(Option<String>, bool)> = vec![(None, true), (Some("eng".into()), true), (Some("zzz".into()), true), (Some("".into()), false), (Some("e".into()), false), (Some("en".into()), false), (Some("ENG".into()), false), (Some("e1g".into()), false), (Some("éng".into()), false), (Some("engl".into()), false)];
             let mut k = 0;
+            // long tracks (2^31 < duration < 2^32 ticks) with every language value and two titles
+            for (lang, wf) in &langs {
+                for title in [None, Some("long".to_string())] {
+                    for (codec, audio, fast) in [(VCodec::H264, None, true), (VCodec::H265, Some(ACodec::AacLc), false), (VCodec::Av1, Some(ACodec::Opus), true), (VCodec::Vp9, None, false)] {
+                        let mut cfg = Cfg::basic(codec, audio, fast);
+                        cfg.meta = Some(MMeta { title: title.clone(), time: Some(951_782_400), lang: lang.clone() });
+                        k += 1;
+                        judge(&cfg, LONG + 3, *wf, true, (idx as u64, 9_000_000 + k), t);
+                    }
+                }
+            }
             for title in &titles {
                 for time in &times {
                     for (lang, wf) in &langs {
@@ -295,7 +311,7 @@ pub fn check(ctx: &Ctx) -> i32 {
         &tally,
         Meta {
             level: "exploration",
-            rule: format!("creation times: every day from 1970-01-01 to {y:04}-{m:02}-{d:02} at seconds-of-day {secs:?}{}; all 17576 lower-case three-letter language codes on A/V files (every track's mdhd); the product of 10 titles (empty, 1-4 byte scalars, 255/256/70000 bytes, embedded NUL) x 4 creation times x 10 language values (3 well-formed, 7 malformed - for those only well-formedness is demanded) x 0-2 frames x 4 codec/audio/layout configurations, each also compared with the same history without metadata (reader-reduced movie equal, chunk offsets shifted uniformly by the size of udta in the fast-start layout and not at all otherwise). Builder chains (with_metadata(title) then set_create_time / set_language in either order) must equal the complete Metadata value. Reference calendar: civil-from-days, written independently. Distinct by (udta bytes, packed language).", if ctx.thorough { "" } else { ", plus Jan 1 / Feb 28 / Feb 29 or Mar 1 / Mar 1 / Dec 31 of every year to 9999 at 0 and 86399" }),
+            rule: format!("creation times: every day from 1970-01-01 to {y:04}-{m:02}-{d:02} at seconds-of-day {secs:?}{}; all 17576 lower-case three-letter language codes on A/V files (every track's mdhd); the product of 10 titles (empty, 1-4 byte scalars, 255/256/70000 bytes, embedded NUL) x 4 creation times x 10 language values (3 well-formed, 7 malformed - for those only well-formedness is demanded) x 0-2 frames x 4 codec/audio/layout configurations (and, for every language value, three frames 15 000 s apart: tracks longer than 2^31 ticks), each also compared with the same history without metadata (reader-reduced movie equal, chunk offsets shifted uniformly by the size of udta in the fast-start layout and not at all otherwise). Builder chains (with_metadata(title) then set_create_time / set_language in either order) must equal the complete Metadata value. Reference calendar: civil-from-days, written independently. Distinct by (udta bytes, packed language).", if ctx.thorough { "" } else { ", plus Jan 1 / Feb 28 / Feb 29 or Mar 1 / Mar 1 / Dec 31 of every year to 9999 at 0 and 86399" }),
             bound: if ctx.thorough { "every day of years 1970-9999".into() } else { "every day 1970-2110, calendar-special days to 9999".to_string() },
             exhaustive: true,
             assumptions: vec!["termination for creation times up to u64::MAX is C12's child-process check".into()],
